@@ -222,6 +222,22 @@ CLAIMS["C18"] = (
     "DESIGN.md section 5 C18",
 )
 
+CLAIMS["C20"] = (
+    "per-host decision-tree truth tables from the loop-body head (hoisted conditions followed); list-role dataflow (per-host vs accumulated result); exit truth table; who-may-close sweep with receiver types; atomic-pair MAY dataflow of instance/ownership-flag writes; checker-side evaluation of the two name predicates",
+    "Decides statically: per configured host the mDNS lookup is reached iff the host is a bare name or ends in .local, the literal parse iff it "
+    "is not (and performs no lookup), the OS resolver iff nothing was found for THIS host (the tested list is re-created per iteration and "
+    "receives all three resolvers' results); only ResolveAPIError from mDNS is absorbed; per-host results are appended in input order, "
+    "append-only; the function returns iff something resolved, else raises the remembered mDNS error or ResolveAPIError (R1); mDNS collects "
+    "IPv6 before IPv4 into the list it returns with the documented service/server names, address conversion keeps family and sockaddr class "
+    "in agreement, strips %scope and keeps a numeric scope id, OSError becomes APIConnectionError (R2); the only close of a zeroconf instance "
+    "in the library proper is the manager's, reached iff it created the instance; the ownership flag becomes true only where the manager "
+    "constructs AsyncZeroconf() itself; instance and flag always change together with no suspension point in between; the service-info helper "
+    "snapshots 'had an instance' before requesting one and closes through the manager on every exit when it had none (R3); "
+    "host_is_name_part / address_is_local agree with their specification on a table of addresses (R4). Resolver outcomes for all inputs "
+    "and manager histories as behaviour are not decided.",
+    "DESIGN.md section 5 C20",
+)
+
 UNDER_CONSTRUCTION = "rule set not built yet in this round (see DESIGN.md section 5 for the planned static rules)"
 
 NOT_APPLICABLE = {}
